@@ -24,12 +24,13 @@ RULE = ('synthetic worlds as in C01 (isothermal / monotone / inverted / hot-spik
 ASSUMPTIONS = [
     'Planck function in the code\'s unit convention (pi*B_lambda*1e-6) from CODATA constants in scipy.constants',
     'cloud decks are not part of the emission workloads (the statement speaks of composition; the deck is defined for transits, C19)',
-    'correlated-k emission is exercised by C20 (degenerate k-tables against this same cross-section path)',
+    'correlated-k mode: molecules share one set of g-points/weights and their coefficients add per g-point (the '
+    'perfectly-correlated convention of the code); transmittances are weight-averaged exponentials',
     'licensed cut-off: a transmittance term whose vertical optical depth is >= 10 at every wavenumber may be '
     'replaced by 0; by Abel summation the intensity then deviates by at most exp(-10)*(B_0 + sum_l |B_{l-1}-B_l|)',
 ]
-_Q = {'emission': 100, 'direct': 35, 'isothermal': 35, 'rerun': 40}
-_T = {'emission': 2000, 'direct': 600, 'isothermal': 600, 'rerun': 800}
+_Q = {'emission': 100, 'direct': 35, 'isothermal': 35, 'rerun': 40, 'ktable': 40}
+_T = {'emission': 2000, 'direct': 600, 'isothermal': 600, 'rerun': 800, 'ktable': 700}
 BUDGET = {
     'quick': [dict(name='boundscheck', env={'NUMBA_BOUNDSCHECK': '1'}, shards=4, cases=_Q)],
     'thorough': [dict(name='boundscheck', env={'NUMBA_BOUNDSCHECK': '1'}, shards=16, cases=_T),
@@ -37,10 +38,10 @@ BUDGET = {
 }
 REQUIRED = dict(monitors=['intensity-per-angle', 'flux', 'eclipse-spectrum', 'directimage-scaling',
                           'isothermal-identity', 'between-coldest-and-hottest', 'quadrature-nodes',
-                          'partial-model-equals-intensity'],
+                          'partial-model-equals-intensity', 'ktable-intensity-per-angle', 'ktable-flux'],
                 classes=['model:emission', 'model:directimage', 'clamp-possible', 'no-clamp', 'ngauss:1', 'ngauss:8',
                          'T:isothermal', 'T:array', 'magnitude:transparent', 'magnitude:saturating',
-                         'rerun:evaluated-after-change'])
+                         'rerun:evaluated-after-change', 'mode:ktable'])
 CUT = math.exp(-10.0)
 _state = {}
 
@@ -66,6 +67,8 @@ def setup(ctx):
             'contribs': [(c.name, type(c).__name__, np.array(c.sigma_xsec, dtype=float)) for c in self.contribution_list],
             'Rp': float(self.planet.fullRadius), 'Rs': float(self.star.radius), 'Tstar': float(self.star.temperature),
             'dist': float(self.star.distance),
+            'kweights': next((np.array(c.weights, dtype=float) for c in self.contribution_list
+                              if getattr(c, 'weights', None) is not None), None),
         }
         _state['snap'] = snap
         ctx.event('tap:evaluate_emission')
@@ -148,12 +151,20 @@ def run(ctx, model, partial=False):
 def oracle(ctx, snap, spec):
     n, wn = snap['n'], snap['wn']
     nwn = len(wn)
-    # vertical optical depth of each layer alone
+    # vertical optical depth of each layer alone (k-table sigma has one more axis: the g-points)
     dtau = np.zeros((n, nwn))
+    ktau, kw = None, snap.get('kweights')
     for nm, kls, sig in snap['contribs']:
         p = 2 if kls == 'CIAContribution' else 1
+        if sig.ndim == 3:
+            ktau = np.zeros((n, nwn, sig.shape[2]))
+            for l in range(n):
+                ktau[l] = sig[l] * snap['rho'][l] * snap['dz'][l]
+            continue
         for l in range(n):
             dtau[l] += sig[l] * snap['rho'][l] ** p * snap['dz'][l]
+    if ktau is not None:
+        return oracle_ktable(ctx, snap, spec, dtau, ktau, kw)
     ng = snap['ngauss']
     mus, ws = R.gauss_legendre_unit(ng)
     ctx.check('quadrature-nodes', ng == spec['ngauss'] and len(snap['inv_mu']) == ng, ng=ng)
@@ -181,6 +192,101 @@ def oracle(ctx, snap, spec):
         ctx.close('intensity-per-angle', snap['I'][k], mine[key], 1e-9, atol=atolI, mu=m, ngauss=ng, nlayers=n)
     ctx.close('flux', snap['f_total'], F, 1e-9, atol=math.pi * atolI, ngauss=ng)
     return {'F': F, 'Is': Is, 'B': B, 'atolI': atolI, 'dtau': dtau, 'clampable': clampable}
+
+
+def oracle_ktable(ctx, snap, spec, dtau, ktau, kw):
+    """Correlated-k mode: every transmittance of the layered integral becomes the weight-averaged exponential
+    T_X(mu) = exp(-tau_other_X/mu) * sum_g w_g exp(-tau^k_{X,g}/mu).  The code applies no clamp to the intensity in
+    this mode, so no cut-off allowance is needed."""
+    n, wn = snap['n'], snap['wn']
+    nwn = len(wn)
+    ng = snap['ngauss']
+    mus, ws = R.gauss_legendre_unit(ng)
+    ctx.check('quadrature-nodes', ng == spec['ngauss'] and len(snap['inv_mu']) == ng, ng=ng)
+    ctx.close('kweights-sum-to-one', float(np.sum(kw)), 1.0, 1e-12)
+    B = np.array([R.planck_taurex_units(wn, t) / math.pi for t in snap['T']])
+    above = np.zeros((n + 1, nwn))
+    kabove = np.zeros((n + 1, nwn, ktau.shape[2]))
+    for l in range(n - 1, -1, -1):
+        above[l] = above[l + 1] + dtau[l]
+        kabove[l] = kabove[l + 1] + ktau[l]
+
+    def trans(l, mu):
+        return np.exp(-above[l] / mu) * np.sum(np.exp(-kabove[l] / mu) * kw, axis=-1)
+    F = np.zeros(nwn)
+    Is = []
+    for m, w in zip(mus, ws):
+        I = B[0] * trans(0, m)
+        for l in range(n):
+            I = I + B[l] * (trans(l + 1, m) - trans(l, m))
+        Is.append(I)
+        F += 2.0 * math.pi * w * m * I
+    mine = {round(float(m), 12): I for m, I in zip(mus, Is)}
+    for k in range(ng):
+        m = 1.0 / snap['inv_mu'][k]
+        key = min(mine, key=lambda q: abs(q - m))
+        ctx.close('ktable-intensity-per-angle', snap['I'][k], mine[key], 1e-9, atol=1e-300, mu=m, ngauss=ng, nlayers=n,
+                  ng_k=int(ktau.shape[2]))
+    ctx.close('ktable-flux', snap['f_total'], F, 1e-9, ngauss=ng)
+    return {'F': F, 'Is': np.array(Is), 'B': B, 'atolI': np.zeros(nwn), 'dtau': dtau, 'clampable': []}
+
+
+_kdir = [0]
+
+
+def wl_ktable(ctx, rng):
+    """Emission in correlated-k mode with genuinely g-dependent coefficients (real .pickle k-tables on disk,
+    discovered through KTableCache) against the weight-averaged-exponential form of the layered integral."""
+    import os
+    from taurex.cache import GlobalCache
+    from taurex.cache.ktablecache import KTableCache
+    from taurex.exceptions import InvalidModelException
+    iso = rng.random() < 0.35
+    spec = make_case(rng, tkind='isothermal' if iso else None, nlayers=int(rng.choice([2, 3, 5, 7, 13])))
+    spec['interpolation'] = 'linear'
+    kind = 'emission'
+    observe_case(ctx, spec, kind)
+    ctx.observe('mode:ktable')
+    ngk = int(rng.integers(1, 6))
+    w = rng.random(ngk) + 0.05
+    w /= w.sum()
+    degenerate = rng.random() < 0.2
+    world.reset_caches()
+    _kdir[0] += 1
+    d = os.path.join(ctx.scratch, 'ktab-%d' % _kdir[0])
+    os.makedirs(d)
+    for mname, t in spec['tables'].items():
+        fac = np.ones((1, 1, 1, ngk)) if degenerate else 10 ** np.sort(rng.uniform(-2, 2, (1, 1, 1, ngk)), axis=-1)
+        world.write_pickle_ktable(os.path.join(d, mname + '.pickle'), mname, t['wn'], t['T'], t['P'], t['xsec'][..., None] * fac, w)
+    GlobalCache()['opacity_method'] = 'ktables'
+    KTableCache().set_ktable_path(d)
+    pairs = []
+    for c in spec['contributions']:
+        if not isinstance(c, str) and c['name'] == 'CIA':
+            pairs = c['cia_pairs']
+    if pairs:
+        wn = next(iter(spec['tables'].values()))['wn']
+        world.install_cia(np.random.default_rng(spec['cia_seed']), pairs, wn, spec['cia_magnitude'])
+    model = world.build_model(spec, kind, ngauss=spec['ngauss'])
+    world.add_contributions(model, spec)
+    try:
+        snap, out = run(ctx, model)
+        if snap is None:
+            return
+        res = oracle(ctx, snap, spec)
+        ctx.check('ktable-path-was-taken', snap.get('kweights') is not None and any(c[2].ndim == 3 for c in snap['contribs']))
+        judge_spectrum(ctx, snap, out, res, spec, kind)
+        if iso:
+            wn = np.array(out[0])
+            T = spec['temperature']['T']
+            want = R.planck_taurex_units(wn, T) / R.planck_taurex_units(wn, snap['Tstar']) * (snap['Rp'] / snap['Rs']) ** 2
+            ctx.close('isothermal-identity', out[1], want, 1e-9, T=T, mode='ktable', ng_k=ngk)
+    finally:
+        import shutil
+        world.reset_caches()
+        shutil.rmtree(d, ignore_errors=True)
+    ctx.sig('ktable', spec['nlayers'], spec['ngauss'], ngk, spec['magnitude'], bool(degenerate), round(spec['planet_mass'], 6))
+    ctx.sample({'mode': 'ktable', 'world': world.spec_summary(spec), 'g_points': ngk, 'degenerate': bool(degenerate)})
 
 
 def observe_case(ctx, spec, kind):
@@ -304,7 +410,8 @@ def wl_rerun(ctx, rng):
             round(spec['planet_mass'], 6))
 
 
-WORKLOADS = {'emission': wl_emission, 'direct': wl_direct, 'isothermal': wl_isothermal, 'rerun': wl_rerun}
+WORKLOADS = {'emission': wl_emission, 'direct': wl_direct, 'isothermal': wl_isothermal, 'rerun': wl_rerun,
+             'ktable': wl_ktable}
 
 LEVEL_TEXT = ('Exploration by runtime monitoring: every evaluate_emission / compute_final_flux call made by the workload '
               'is tapped (layer thicknesses, density, temperatures, quadrature nodes and each contribution\'s prepared '
